@@ -177,12 +177,32 @@ def run(tier, seed, replay):
             dd = max(np.abs(a - b).max() for a, b in zip(ref_f, st))
             if dd > 1e-7:
                 v("rewriting:mixed-order", f"listing the same fermionic and bosonic baths in another order (arrangement {order}) changes the system state by {dd:.2e}", {"arrangement": order})
+    # merging two exponents of equal rate: every pair of kinds, in both orders
+    from qutip.core.environment import CFExponent
+    for ka in ("R", "I", "RI"):
+        for kb in ("R", "I", "RI"):
+            for _ in range(2 if tier == "quick" else 10):
+                a = {"kind": ka, "ck": int(rng.integers(-9, 10)), "ck2": int(rng.integers(-9, 10)) if ka == "RI" else 0}
+                b = {"kind": kb, "ck": int(rng.integers(-9, 10)), "ck2": int(rng.integers(-9, 10)) if kb == "RI" else 0}
+                ea = CFExponent(ka, a["ck"], 1.5, ck2=a["ck2"] if ka == "RI" else None)
+                eb_ = CFExponent(kb, b["ck"], 1.5, ck2=b["ck2"] if kb == "RI" else None)
+                try:
+                    ec = ea._combine(eb_)
+                    got = {"kind": ec.type.name, "ck": int(np.real(ec.ck)), "ck2": int(np.real(ec.ck2 or 0))}
+                except Exception as e:      # noqa
+                    got = {"error": repr(e)}
+                lines.append("C19.combine " + json.dumps({"a": a, "b": b}))
+                expect.append(("combine", got, {"a": a, "b": b}))
+                rep.count("combine-kinds")
     model = core.run_driver(lines)
     ndis, first = 0, None
     for line, ex, m in zip(lines, expect, model):
         bad = None
         if isinstance(m, dict) and "error" in m:
             bad = {"model": m}
+        elif ex[0] == "combine":
+            if m != ex[1]:
+                bad = {"model": m, "impl": ex[1], "case": ex[2]}
         elif ex[0] == "labels":
             if m != ex[1]:
                 diff = [k for k in ex[1] if m.get(k) != ex[1][k]]
@@ -248,6 +268,30 @@ def run(tier, seed, replay):
                         v("rewriting:merged-vs-single", f"an exponent written as two equal-rate halves and merged differs from the single exponent by {d0:.2e} (depth {depth})", cfg)
                     if depth <= 1 and dd > 1e-6:
                         v("rewriting:merge", f"merging exponents of equal rate changes the system state by {dd:.2e} (depth {depth})", cfg)
+                # exponents of equal rate of different kinds (real / imaginary part), listed in every order, merged or not
+                if depth >= 1:
+                    from qutip.solver.heom import Bath
+                    vshared = vkr[0]
+                    eb = BosonicBath(Qc, ckr, vkr, [0.03 + 0j] + cki, [vshared] + vki, combine=False)
+                    exps = list(eb.exponents)
+                    ref_m = [x.full() for x in solve(Bath(exps)).states]
+                    orders = [list(rng.permutation(len(exps))) for _ in range(2)] + [list(range(len(exps)))[::-1]]
+                    for od in orders:
+                        pe = [exps[i] for i in od]
+                        for merged_ in (False, True):
+                            try:
+                                lst = BosonicBath.combine(pe) if merged_ else pe
+                                out = solve(Bath(list(lst)))
+                            except core.CaseTimeout:
+                                raise
+                            except Exception as e:
+                                v("combine-raises", f"combining / running a reordered exponent list raises {type(e).__name__}: {e}"[:200], cfg)
+                                continue
+                            dd = max(np.abs(a - x.full()).max() for a, x in zip(ref_m, out.states))
+                            rep.evaluations += 1
+                            rep.count("rewrite=order+merge-kinds")
+                            if dd > (1e-6 if merged_ else 1e-7):
+                                v(f"rewriting:{'merged' if merged_ else 'reordered'}-kinds", f"exponents of equal rate and different kinds listed as {[exps[i].type.name for i in od]}{' and merged' if merged_ else ''}: the system state changes by {dd:.2e} (depth {depth})", cfg)
                 # limits
                 if depth == 0:
                     me = qutip.mesolve(H, rho0, tl, options={"atol": 1e-11, "rtol": 1e-9}).states
@@ -265,6 +309,28 @@ def run(tier, seed, replay):
                     if abs(np.trace(a) - 1) > 1e-8:
                         v("trace-drift", f"trace of the system state at stored time {k}: {np.trace(a)} (depth {depth})", cfg)
                 if depth >= 1:
+                    # stored hierarchy states belong to their own time, whatever the integrator
+                    for method in ("adams", "vern7", "lsoda", "bdf", "dop853"):
+                        try:
+                            with warnings.catch_warnings():
+                                warnings.simplefilter("ignore")
+                                with core.time_limit(300):
+                                    rm = HEOMSolver(H, BosonicBath(Qc, ckr, vkr, cki, vki, combine=False), max_depth=depth, options=dict(OPT, method=method)).run(rho0, tl)
+                                    sys_states = [x.full() for x in rm.states]
+                                    ados = list(rm.ado_states)
+                                    worst = max(np.abs(a.extract(0).full() - b).max() for a, b in zip(ados, sys_states))
+                                    rr = HEOMSolver(H, BosonicBath(Qc, ckr, vkr, cki, vki, combine=False), max_depth=depth, options=dict(OPT, method=method)).run(ados[2], tl[2:])
+                                    dd = max(np.abs(a - x.full()).max() for a, x in zip(sys_states[2:], rr.states))
+                        except core.CaseTimeout:
+                            raise
+                        except Exception as e:
+                            v(f"ado-states-raises:{method}", f"{type(e).__name__}: {e}"[:200], cfg)
+                            continue
+                        rep.count("ado-states/" + method)
+                        if worst > 1e-10:
+                            v(f"ado-alignment:{method}", f"method {method}: the system block of a stored hierarchy state differs from the state stored at the same time by {worst:.2e} (depth {depth})", cfg)
+                        if dd > 1e-6:
+                            v(f"restart:{method}", f"method {method}: a run restarted from the hierarchy state stored at an intermediate time differs from the original by {dd:.2e} (depth {depth})", cfg)
                     mid = 2
                     ado_mid = base.ado_states[mid]
                     arr = np.array(ado_mid._ado_state)
